@@ -6,7 +6,10 @@ Go state                                   model
 consumer{id, streams, assignments,         `Cons` (streams: the Go set as a sorted, duplicate-
          assignedCount}                       free list; assignments: association list stream ↦
                                               partitions in assignment order; `count` is the
-                                              separately maintained TOTAL over all streams)
+                                              separately maintained TOTAL over all streams, written
+                                              exactly where the Go code writes `assignedCount`
+                                              (`Gen.Groups.loadWrites`); that it equals
+                                              `asgTotal asg` is a THEOREM, `Props.C12.load_count_exact`)
 consumerGroup.members (id ↦ *consumer)     `Group.members : List Cons` (insertion order; ids
                                               distinct — see `join`)
 consumerGroup.subscribers                  `Group.subs : stream ↦ List id`  (which consumers are
@@ -120,6 +123,21 @@ def Cons.assignPartition (c : Cons) (s : String) (p : Nat) : Cons :=
 def Cons.removeStreamAssignments (c : Cons) (s : String) : Cons :=
   { c with count := c.count - ((asgOf c.asg s).length : Int), asg := asgErase c.asg s }
 
+/-- What `StreamDeleted` does to one subscriber of the deleted stream: the stream leaves its
+subscription set and its assignments of the stream are dropped — through
+`subscriber.removeStreamAssignments(stream)`, which also lowers the load counter (regenerated fact
+`Gen.Groups.deletedLowersCount`; a bare `delete(subscriber.assignments, stream)` would leave a
+phantom load behind: `Proofs.Groups.cinv_*` need the fact to be `true`). -/
+def Cons.dropStream (c : Cons) (s : String) : Cons :=
+  let c' := if Gen.Groups.deletedLowersCount then c.removeStreamAssignments s
+            else { c with asg := asgErase c.asg s }
+  { c' with streams := c.streams.filter (· ≠ s) }
+
+/-- The number of partitions held over all streams — what `assignedCount` is meant to be. -/
+def asgTotal : Asg → Nat
+  | [] => 0
+  | (_, v) :: r => v.length + asgTotal r
+
 /-- `consumerHeap.Less`, evaluated through the regenerated operators. -/
 def less (a b : Cons) : Bool :=
   if Gen.Groups.lessCountEq.evalInt a.count b.count then cmpStr Gen.Groups.lessId a.id b.id
@@ -230,9 +248,7 @@ def streamDeleted (parts : String → Nat) (g : Group) (s : String) (epoch : Nat
       -- dropped and the epoch is left alone (fix abd9059, `Gen.Groups.emptyHeapKeepsEpoch`)
       if Gen.Groups.emptyHeapKeepsEpoch && ids.isEmpty then .ok { g with subs := sdel g.subs s } else
       let ms := g.members.map fun c =>
-        if c.id ∈ ids then
-          { (c.removeStreamAssignments s) with streams := c.streams.filter (· ≠ s) }
-        else c
+        if c.id ∈ ids then c.dropStream s else c
       let rebalance := sortDedup ((ms.filter (fun c => c.id ∈ ids)).flatMap (·.streams))
       let g1 : Group := { g with members := ms, subs := sdel g.subs s }
       let g2 := rebalance.foldl (fun g t => balance parts t g) g1
